@@ -110,6 +110,8 @@ impl Entry for SEntry {
         w.value("rep3", &ObsVal(&[metrique_writer::Observation::Repeated { total: 7.5, occurrences: 3 }]));
         w.value("multi", &ObsVal(&[metrique_writer::Observation::Unsigned(4), metrique_writer::Observation::Floating(0.25), metrique_writer::Observation::Repeated { total: 12.0, occurrences: 2 }]));
         w.value("flt", &ObsVal(&[metrique_writer::Observation::Floating(1.5)]));
+        // equal observations next to each other (each is an observation of its own, however the record groups them)
+        w.value("eq", &ObsVal(&[metrique_writer::Observation::Unsigned(5), metrique_writer::Observation::Unsigned(5), metrique_writer::Observation::Unsigned(5), metrique_writer::Observation::Unsigned(7)]));
     }
     fn sample_group(&self) -> impl Iterator<Item = SampleGroupElement> {
         [(Cow::Borrowed("op"), Cow::Owned(self.group.clone()))].into_iter()
@@ -156,7 +158,7 @@ impl metrique_writer::Value for ObsVal {
 }
 
 /// occurrences of each observation of the metrics `SEntry` writes
-const SHAPES: [(&str, &[u64]); 5] = [("id", &[1]), ("rep1", &[1]), ("rep3", &[3]), ("multi", &[1, 1, 2]), ("flt", &[1])];
+const SHAPES: [(&str, &[u64]); 6] = [("id", &[1]), ("rep1", &[1]), ("rep3", &[3]), ("multi", &[1, 1, 2]), ("flt", &[1]), ("eq", &[1, 1, 1, 1])];
 
 /// The weight applied to every count of the sampled record: count / occurrences, for every observation of every
 /// metric (u64::MAX when saturated). A metric written as a plain number carries no count, i.e. the implicit weight 1.
@@ -170,6 +172,34 @@ fn counts_in(out: &[u8]) -> Vec<u64> {
                         v.push(0); // a metric of the entry is missing from the record
                         continue;
                     };
+                    if name == "eq" {
+                        // judged per distinct value (a record may or may not fold equal values): 5 three times, 7 once
+                        let vals = val.get("Values").and_then(|c| c.as_array()).cloned().unwrap_or_default();
+                        let cnts = val.get("Counts").and_then(|c| c.as_array()).cloned().unwrap_or_default();
+                        let mut per: BTreeMap<u64, (u128, bool)> = BTreeMap::new();
+                        for (x, c) in vals.iter().zip(cnts.iter()) {
+                            let n = c.as_u64().map(|n| n as u128).unwrap_or_else(|| c.as_f64().unwrap_or(0.0) as u128);
+                            let sat = c.as_u64() == Some(u64::MAX) || c.as_f64().map(|f| f >= 1.8e19).unwrap_or(false);
+                            let e = per.entry(x.as_f64().unwrap_or(-1.0) as u64).or_insert((0, false));
+                            e.0 += n;
+                            e.1 |= sat;
+                        }
+                        if vals.len() != cnts.len() || per.keys().copied().collect::<Vec<_>>() != vec![5, 7] {
+                            v.push(0);
+                            continue;
+                        }
+                        for (value, k) in [(5u64, 3u128), (7, 1)] {
+                            let (n, sat) = per[&value];
+                            if sat {
+                                if k == 1 {
+                                    v.push(u64::MAX);
+                                }
+                                continue;
+                            }
+                            v.push(if n % k == 0 { (n / k).min(u64::MAX as u128) as u64 } else { 0 });
+                        }
+                        continue;
+                    }
                     if let Some(c) = val.get("Counts").and_then(|c| c.as_array()) {
                         if c.len() != occ.len() {
                             v.push(0);
